@@ -231,19 +231,488 @@ class WSchema(World):
 
 
 # --------------------------------------------------------------------------------------------
+# W_sum: summary tables by (), (k), (kl), (k, rl)
+# --------------------------------------------------------------------------------------------
+
+def _sum_sections(doc):
+  tref = table_ref(doc, 'Src')
+  k, kl, rl = (col_ref(doc, 'Src', c) for c in ('k', 'kl', 'rl'))
+  return [
+      ["CreateViewSection", tref, 0, "record", [], None],
+      ["CreateViewSection", tref, 0, "record", [k], None],
+      ["CreateViewSection", tref, 0, "record", [kl], None],
+      ["CreateViewSection", tref, 0, "record", [k, rl], None],
+  ]
+
+
+SUM_SETUP = [
+    [["AddTable", "Other", [{"id": "label", "type": "Text"}]]],
+    [["AddTable", "Src", [
+        {"id": "k", "type": "Choice"},
+        {"id": "kl", "type": "ChoiceList"},
+        {"id": "r", "type": "Ref:Other"},
+        {"id": "rl", "type": "RefList:Other"},
+        {"id": "n", "type": "Int"},
+    ]]],
+    [["BulkAddRecord", "Other", [None, None], {"label": ["o1", "o2"]}],
+     ["BulkAddRecord", "Src", [None, None, None], {
+         "k": ["a", "a", "b"], "kl": [["L", "x", "y"], ["L", "x"], None],
+         "r": [1, 2, 0], "rl": [["L", 1, 2], None, ["L", 2]], "n": [1, 2, 3]}]],
+    _sum_sections,
+]
+
+
+def summary_tables(doc):
+  """[(summary table id, section refs, [source col refs])] for current summary tables."""
+  out = []
+  dm = doc.eng.docmodel
+  for t in dm.tables.all:
+    if t.summarySourceTable:
+      secs = [s.id for s in t.viewSections if not s.isRaw and not s.isRecordCard]
+      src = [c.summarySourceCol.id for c in t.columns if c.summarySourceCol]
+      out.append((t.tableId, secs, sorted(src)))
+  return sorted(out)
+
+
+class WSum(World):
+  name = 'W_sum'
+  setup = SUM_SETUP
+
+  def __init__(self, reduced=False):
+    self.reduced = reduced
+
+  def alphabet(self, doc):
+    out = []
+    A = out.append
+    S = rows(doc, 'Src')
+    O = rows(doc, 'Other')
+    hs = lambda c: has_col(doc, 'Src', c)
+    if 'Src' in doc.eng.tables:
+      for r in S[:2]:
+        if hs('k'):
+          A(("upd S%d k=b" % r, [["UpdateRecord", "Src", r, {"k": "b"}]]))
+          A(("upd S%d k=c" % r, [["UpdateRecord", "Src", r, {"k": "c"}]]))
+        if hs('kl'):
+          A(("upd S%d kl=[y]" % r, [["UpdateRecord", "Src", r, {"kl": ["L", "y"]}]]))
+          A(("upd S%d kl=None" % r, [["UpdateRecord", "Src", r, {"kl": None}]]))
+        if hs('rl'):
+          A(("upd S%d rl=[2]" % r, [["UpdateRecord", "Src", r, {"rl": ["L", 2]}]]))
+      for r in S[-1:]:
+        if hs('kl'):
+          A(("upd S%d kl=alt" % r, [["UpdateRecord", "Src", r, {"kl": "zz"}]]))
+          A(("upd S%d kl=[x,x]" % r, [["UpdateRecord", "Src", r, {"kl": ["L", "x", "x"]}]]))
+        if hs('rl'):
+          A(("upd S%d rl=None" % r, [["UpdateRecord", "Src", r, {"rl": None}]]))
+        if hs('n'):
+          A(("upd S%d n" % r, [["UpdateRecord", "Src", r, {"n": 10}]]))
+      vals = {}
+      if hs('k'):
+        vals['k'] = 'c'
+      if hs('kl'):
+        vals['kl'] = ['L', 'y', 'z']
+      if hs('rl'):
+        vals['rl'] = ['L', 1]
+      A(("add S", [["AddRecord", "Src", None, vals]]))
+      A(("add S empty", [["AddRecord", "Src", None, {}]]))
+      for r in S[:3]:
+        A(("rem S%d" % r, [["RemoveRecord", "Src", r]]))
+      if len(S) >= 2:
+        A(("bulkrem S", [["BulkRemoveRecord", "Src", S[:2]]]))
+        if hs('k'):
+          A(("bulkupd S k", [["BulkUpdateRecord", "Src", S[:2], {"k": ["b", "c"]}]]))
+      # schema edits on group-by sources
+      if hs('k'):
+        A(("rencol S.k->kind", [["RenameColumn", "Src", "k", "kind"]]))
+        A(("modcol S.k Text", [["ModifyColumn", "Src", "k", {"type": "Text"}]]))
+        A(("remcol S.k", [["RemoveColumn", "Src", "k"]]))
+      if hs('kl'):
+        A(("modcol S.kl Choice", [["ModifyColumn", "Src", "kl", {"type": "Choice"}]]))
+        A(("remcol S.kl", [["RemoveColumn", "Src", "kl"]]))
+      if hs('rl'):
+        A(("modcol S.rl Ref", [["ModifyColumn", "Src", "rl", {"type": "Ref:Other"}]]))
+      if hs('n') and not self.reduced:
+        A(("remcol S.n", [["RemoveColumn", "Src", "n"]]))
+      if not self.reduced:
+        A(("rentable Src->Source", [["RenameTable", "Src", "Source"]]))
+      # regrouping of every summary section to a few other group-by sets
+      sums = summary_tables(doc)
+      colsets = []
+      refs = {c: col_ref(doc, 'Src', c) for c in ('k', 'kl', 'r', 'rl') if hs(c)}
+      for names in ([], ['k'], ['kl'], ['k', 'rl'], ['r'], ['k', 'kl']):
+        if all(n in refs for n in names):
+          colsets.append(sorted(refs[n] for n in names))
+      for (tid, secs, src) in sums:
+        for s in secs[:1]:
+          for cs in colsets:
+            if cs != src:
+              A(("regroup %s -> %s" % (tid, cs), [["UpdateSummaryViewSection", s, cs]]))
+          A(("detach %s" % tid, [["DetachSummaryViewSection", s]]))
+          if not self.reduced:
+            A(("rem section of %s" % tid, [["RemoveRecord", "_grist_Views_section", s]]))
+        if not self.reduced and has_col(doc, tid, 'count'):
+          A(("addcol %s formula" % tid, [["AddColumn", tid, "tot", {
+              "isFormula": True, "type": "Any", "formula": "len($group)"}]]))
+      if sums and not self.reduced:
+        tid = sums[-1][0]
+        gcols = [c for c in ('k', 'kind', 'kl', 'rl') if has_col(doc, tid, c)]
+        rr = rows(doc, tid)
+        if gcols and rr:
+          A(("FAIL upd groupby in %s" % tid, [["UpdateRecord", tid, rr[0], {gcols[0]: "q"}]]))
+          A(("FAIL rem summary row %s" % tid, [["RemoveRecord", tid, rr[0]]]))
+    for o in O[:2]:
+      A(("rem O%d" % o, [["RemoveRecord", "Other", o]]))
+    if 'Other' in doc.eng.tables and not self.reduced:
+      A(("remtable Other", [["RemoveTable", "Other"]]))
+    if 'Src' in doc.eng.tables and not self.reduced:
+      A(("remtable Src", [["RemoveTable", "Src"]]))
+    return out
+
+
+# --------------------------------------------------------------------------------------------
+# W_2way: two-way references A<->B
+# --------------------------------------------------------------------------------------------
+
+def _twoway_links(doc):
+  return [["AddReverseColumn", "A", "x"], ["AddReverseColumn", "A", "y"], ["AddReverseColumn", "A", "z"]]
+
+
+def _twoway_rename(doc):
+  # AddReverseColumn names the new columns itself; give them stable ids xs / ys / zb.
+  out = []
+  dm = doc.eng.docmodel
+  for src, new in (('x', 'xs'), ('y', 'ys'), ('z', 'zb')):
+    c = dm.columns.lookupOne(tableId='A', colId=src)
+    out.append(["RenameColumn", "B", c.reverseCol.colId, new])
+  return out
+
+
+TWOWAY_SETUP = [
+    [["AddTable", "B", [{"id": "bn", "type": "Text"}]]],
+    [["AddTable", "A", [{"id": "an", "type": "Text"},
+                        {"id": "x", "type": "Ref:B"},
+                        {"id": "y", "type": "RefList:B"},
+                        {"id": "z", "type": "Ref:B"}]]],
+    [["BulkAddRecord", "B", [None, None, None], {"bn": ["b1", "b2", "b3"]}],
+     ["BulkAddRecord", "A", [None, None, None], {
+         "an": ["a1", "a2", "a3"], "x": [1, 1, 2], "y": [["L", 1, 2], ["L", 2], None],
+         "z": [1, 2, 0]}]],
+    _twoway_links,
+    _twoway_rename,
+    [["ModifyColumn", "B", "zb", {"type": "Ref:A"}]],
+]
+
+
+class W2Way(World):
+  name = 'W_2way'
+  setup = TWOWAY_SETUP
+
+  def __init__(self, reduced=False):
+    self.reduced = reduced
+
+  def alphabet(self, doc):
+    out = []
+    A_ = out.append
+    RA = rows(doc, 'A')
+    RB = rows(doc, 'B')
+    ha = lambda c: has_col(doc, 'A', c)
+    hb = lambda c: has_col(doc, 'B', c)
+    if 'A' in doc.eng.tables and 'B' in doc.eng.tables:
+      for r in RA[:2]:
+        if ha('x'):
+          A_(("upd A%d x=3" % r, [["UpdateRecord", "A", r, {"x": 3}]]))
+          A_(("upd A%d x=0" % r, [["UpdateRecord", "A", r, {"x": 0}]]))
+        if ha('y'):
+          A_(("upd A%d y=[3,1]" % r, [["UpdateRecord", "A", r, {"y": ["L", 3, 1]}]]))
+          A_(("upd A%d y=None" % r, [["UpdateRecord", "A", r, {"y": None}]]))
+        if ha('z'):
+          A_(("upd A%d z=3" % r, [["UpdateRecord", "A", r, {"z": 3}]]))
+          A_(("upd A%d z=2 (maybe taken)" % r, [["UpdateRecord", "A", r, {"z": 2}]]))
+      for r in RB[:2]:
+        if hb('xs'):
+          A_(("upd B%d xs=[3]" % r, [["UpdateRecord", "B", r, {"xs": ["L", 3]}]]))
+          A_(("upd B%d xs=[1,2,3]" % r, [["UpdateRecord", "B", r, {"xs": ["L", 1, 2, 3]}]]))
+          A_(("upd B%d xs=None" % r, [["UpdateRecord", "B", r, {"xs": None}]]))
+        if hb('ys'):
+          A_(("upd B%d ys=[3,1]" % r, [["UpdateRecord", "B", r, {"ys": ["L", 3, 1]}]]))
+        if hb('zb'):
+          A_(("upd B%d zb=3" % r, [["UpdateRecord", "B", r, {"zb": 3}]]))
+          A_(("upd B%d zb=0" % r, [["UpdateRecord", "B", r, {"zb": 0}]]))
+      if len(RA) >= 2 and ha('x'):
+        A_(("bulkupd A x same target", [["BulkUpdateRecord", "A", RA[:2], {"x": [3, 3]}]]))
+      if len(RB) >= 2 and hb('xs'):
+        A_(("bulkupd B xs dup target", [["BulkUpdateRecord", "B", RB[:2], {"xs": [["L", 1], ["L", 1]]}]]))
+      if len(RA) >= 2 and ha('z'):
+        A_(("bulkupd A z same target", [["BulkUpdateRecord", "A", RA[:2], {"z": [3, 3]}]]))
+      for r in RA[:2]:
+        A_(("rem A%d" % r, [["RemoveRecord", "A", r]]))
+      for r in RB[:2]:
+        A_(("rem B%d" % r, [["RemoveRecord", "B", r]]))
+      vals = {}
+      if ha('x'):
+        vals['x'] = 2
+      if ha('y'):
+        vals['y'] = ['L', 1]
+      A_(("add A", [["AddRecord", "A", None, vals]]))
+      bvals = {}
+      if hb('xs'):
+        bvals['xs'] = ['L', 1]
+      if hb('zb'):
+        bvals['zb'] = 3
+      A_(("add B", [["AddRecord", "B", None, bvals]]))
+      # type switches
+      if ha('x'):
+        A_(("modcol A.x RefList", [["ModifyColumn", "A", "x", {"type": "RefList:B"}]]))
+        A_(("remcol A.x", [["RemoveColumn", "A", "x"]]))
+        A_(("unlink A.x", [["UpdateRecord", "_grist_Tables_column", col_ref(doc, 'A', 'x'),
+                            {"reverseCol": 0}]]))
+        A_(("FAIL modcol A.x Int", [["ModifyColumn", "A", "x", {"type": "Int"}]]))
+      if hb('xs'):
+        A_(("modcol B.xs Ref", [["ModifyColumn", "B", "xs", {"type": "Ref:A"}]]))
+        A_(("remcol B.xs", [["RemoveColumn", "B", "xs"]]))
+      if ha('y'):
+        A_(("modcol A.y Ref", [["ModifyColumn", "A", "y", {"type": "Ref:B"}]]))
+      if hb('ys') and not self.reduced:
+        A_(("remcol B.ys", [["RemoveColumn", "B", "ys"]]))
+      if hb('zb'):
+        A_(("modcol B.zb RefList", [["ModifyColumn", "B", "zb", {"type": "RefList:A"}]]))
+      if ha('x'):
+        dm = doc.eng.docmodel
+        c = dm.columns.lookupOne(tableId='A', colId='x')
+        if not c.reverseCol:
+          A_(("link A.x", [["AddReverseColumn", "A", "x"]]))
+      if not self.reduced:
+        A_(("rentable B->Bee", [["RenameTable", "B", "Bee"]]))
+        if ha('x'):
+          A_(("rencol A.x->ex", [["RenameColumn", "A", "x", "ex"]]))
+    if 'B' in doc.eng.tables and not self.reduced:
+      A_(("remtable B", [["RemoveTable", "B"]]))
+    if 'A' in doc.eng.tables and not self.reduced:
+      A_(("remtable A", [["RemoveTable", "A"]]))
+    return out
+
+
+# --------------------------------------------------------------------------------------------
+# W_trig: trigger formulas that count their own recalculations
+# --------------------------------------------------------------------------------------------
+
+TRIG_F = "(value or 0) + 1"
+
+
+def _trig_cols(doc):
+  # recalcDeps is set by a metadata update afterwards (as the tests and the client do): a list
+  # given inside AddColumn's col_info is taken as per-record bulk values by docmodel.add.
+  def col(cid, when):
+    return ["AddColumn", "T", cid, {"type": "Int", "isFormula": False, "formula": TRIG_F,
+                                    "recalcWhen": when}]
+  return [col("t_def", 0), col("t_never", 1), col("t_manual", 2), col("t_onc", 0), col("t_new", 0),
+          col("t_self", 0)]
+
+
+def _trig_deps(doc):
+  a, c, s = (col_ref(doc, 'T', x) for x in ('a', 'c', 't_self'))
+  upd = lambda cid, deps: ["UpdateRecord", "_grist_Tables_column", col_ref(doc, 'T', cid),
+                           {"recalcDeps": ["L"] + deps}]
+  return [upd("t_def", [a]), upd("t_onc", [c]), upd("t_self", [s, a])]
+
+
+TRIG_SETUP = [
+    [["AddTable", "T", [{"id": "a", "type": "Int"}, {"id": "b", "type": "Int"},
+                        {"id": "c", "type": "Any", "isFormula": True, "formula": "$a + 1"}]]],
+    _trig_cols,
+    _trig_deps,
+    [["BulkAddRecord", "T", [None, None], {"a": [1, 2], "b": [10, 20]}]],
+]
+
+
+class WTrig(World):
+  name = 'W_trig'
+  setup = TRIG_SETUP
+
+  def __init__(self, reduced=False):
+    self.reduced = reduced
+
+  def alphabet(self, doc):
+    out = []
+    A = out.append
+    R = rows(doc, 'T')
+    ht = lambda c: has_col(doc, 'T', c)
+    if 'T' not in doc.eng.tables:
+      return out
+    A(("add T a=5", [["AddRecord", "T", None, {"a": 5}]]))
+    A(("add T empty", [["AddRecord", "T", None, {}]]))
+    if ht('t_def'):
+      A(("add T a=5 t_def=50", [["AddRecord", "T", None, {"a": 5, "t_def": 50}]]))
+      A(("add T t_never=7 t_manual=8", [["AddRecord", "T", None, {"t_never": 7, "t_manual": 8}]]))
+    for r in R[:2]:
+      if ht('a'):
+        A(("upd T%d a=9" % r, [["UpdateRecord", "T", r, {"a": 9}]]))
+        A(("upd T%d a=same" % r, [["UpdateRecord", "T", r, {
+            "a": doc.eng.tables['T'].get_column('a').raw_get(r)}]]))
+      A(("upd T%d b=99" % r, [["UpdateRecord", "T", r, {"b": 99}]]))
+    for r in R[:1]:
+      if ht('t_def') and ht('a'):
+        A(("upd T%d a=9 t_def=70" % r, [["UpdateRecord", "T", r, {"a": 9, "t_def": 70}]]))
+        A(("upd T%d t_def=70" % r, [["UpdateRecord", "T", r, {"t_def": 70}]]))
+      if ht('t_self'):
+        A(("upd T%d t_self=40" % r, [["UpdateRecord", "T", r, {"t_self": 40}]]))
+      if ht('t_manual'):
+        A(("upd T%d t_manual=30" % r, [["UpdateRecord", "T", r, {"t_manual": 30}]]))
+      if ht('t_never'):
+        A(("upd T%d t_never=30" % r, [["UpdateRecord", "T", r, {"t_never": 30}]]))
+    if len(R) >= 2 and ht('a'):
+      A(("bulkupd T a mix", [["BulkUpdateRecord", "T", R[:2], {
+          "a": [doc.eng.tables['T'].get_column('a').raw_get(R[0]), 77]}]]))
+      A(("two actions a then b", [["UpdateRecord", "T", R[0], {"a": 33}],
+                                  ["UpdateRecord", "T", R[0], {"b": 34}]]))
+    for r in R[:1]:
+      A(("rem T%d" % r, [["RemoveRecord", "T", r]]))
+    if not self.reduced:
+      if ht('a'):
+        A(("rencol T.a->aa", [["RenameColumn", "T", "a", "aa"]]))
+        A(("modcol T.a Numeric", [["ModifyColumn", "T", "a", {"type": "Numeric"}]]))
+      if ht('t_def'):
+        cr = col_ref(doc, 'T', 't_def')
+        A(("t_def recalcWhen=NEVER", [["UpdateRecord", "_grist_Tables_column", cr, {"recalcWhen": 1}]]))
+        A(("t_def recalcWhen=MANUAL", [["UpdateRecord", "_grist_Tables_column", cr, {"recalcWhen": 2}]]))
+        if ht('b'):
+          A(("t_def deps=[b]", [["UpdateRecord", "_grist_Tables_column", cr, {
+              "recalcDeps": ["L", col_ref(doc, 'T', 'b')]}]]))
+      if ht('c'):
+        A(("modcol T.c formula", [["ModifyColumn", "T", "c", {"formula": "$a + 2"}]]))
+    return out
+
+
+# --------------------------------------------------------------------------------------------
+# W_look: lookups with every key/order spec as formula columns
+# --------------------------------------------------------------------------------------------
+
+def _spec(name, keys, order_by='__absent__', sort_by=None):
+  """keys: list of (L column, Q column, mode) with mode in eq / contains / contains_empty."""
+  args = []
+  for (lc, qc, mode) in keys:
+    if mode == 'eq':
+      args.append("%s=$%s" % (lc, qc))
+    elif mode == 'contains':
+      args.append("%s=CONTAINS($%s)" % (lc, qc))
+    else:
+      args.append("%s=CONTAINS($%s, match_empty=\"\")" % (lc, qc))
+  if order_by != '__absent__':
+    args.append("order_by=%r" % (order_by,))
+  if sort_by is not None:
+    args.append("sort_by=%r" % (sort_by,))
+  return {'name': name, 'keys': keys, 'order_by': order_by, 'sort_by': sort_by,
+          'args': ", ".join(args)}
+
+
+LOOK_SPECS = [
+    _spec("k_text", [("key", "q", "eq")]),
+    _spec("k_text_s1", [("key", "q", "eq")], order_by="s1"),
+    _spec("k_text_ds1", [("key", "q", "eq")], order_by="-s1"),
+    _spec("k_text_s2ds1", [("key", "q", "eq")], order_by=("s2", "-s1")),
+    _spec("k_text_none", [("key", "q", "eq")], order_by=None),
+    _spec("k_text_id", [("key", "q", "eq")], order_by="id"),
+    _spec("k_text_s1id", [("key", "q", "eq")], order_by=("s1", "id")),
+    _spec("k_text_sort_s1", [("key", "q", "eq")], sort_by="s1"),
+    _spec("k_text_sort_ds2", [("key", "q", "eq")], sort_by="-s2"),
+    _spec("k_two", [("key", "q", "eq"), ("s1", "qi", "eq")]),
+    _spec("k_ref", [("ref", "qi", "eq")]),
+    _spec("k_ref_ds2", [("ref", "qi", "eq")], order_by="-s2"),
+    _spec("k_cont", [("lst", "q", "contains")]),
+    _spec("k_cont_s1", [("lst", "q", "contains")], order_by="s1"),
+    _spec("k_cont_empty", [("lst", "q", "contains_empty")]),
+    _spec("k_cont_key", [("lst", "q", "contains"), ("s1", "qi", "eq")], order_by="-s2"),
+    _spec("k_all_ds1", [], order_by="-s1"),
+    _spec("k_all_none", [], order_by=None),
+]
+
+LOOK_SETUP = [
+    [["AddTable", "L", [{"id": "key", "type": "Text"}, {"id": "lst", "type": "ChoiceList"},
+                        {"id": "ref", "type": "Ref:L"}, {"id": "s1", "type": "Int"},
+                        {"id": "s2", "type": "Text"}]]],
+    [["AddTable", "Q", [{"id": "q", "type": "Text"}, {"id": "qi", "type": "Int"}] +
+      [{"id": "r_" + sp['name'], "type": "Any", "isFormula": True,
+        "formula": "list(L.lookupRecords(%s).id)" % sp['args']} for sp in LOOK_SPECS] +
+      [{"id": "o_" + sp['name'], "type": "Any", "isFormula": True,
+        "formula": "L.lookupOne(%s).id" % sp['args']} for sp in LOOK_SPECS]]],
+    [["BulkAddRecord", "L", [None, None, None, None], {
+        "key": ["a", "b", "a", ""], "lst": [["L", "a", "b"], ["L", "a"], None, ["L", "b", "b"]],
+        "ref": [2, 2, 0, 1], "s1": [2, 1, 2, 1], "s2": ["x", "y", "x", "w"]}],
+     ["BulkAddRecord", "Q", [None, None, None], {"q": ["a", "b", ""], "qi": [2, 1, 0]}]],
+]
+
+
+class WLook(World):
+  name = 'W_look'
+  setup = LOOK_SETUP
+
+  def __init__(self, reduced=False):
+    self.reduced = reduced
+
+  def alphabet(self, doc):
+    out = []
+    A = out.append
+    RL = rows(doc, 'L')
+    RQ = rows(doc, 'Q')
+    for r in RL[:2]:
+      A(("upd L%d key=b" % r, [["UpdateRecord", "L", r, {"key": "b"}]]))
+      A(("upd L%d s1=0" % r, [["UpdateRecord", "L", r, {"s1": 0}]]))
+      A(("upd L%d s1=2" % r, [["UpdateRecord", "L", r, {"s1": 2}]]))
+      A(("upd L%d lst=[b]" % r, [["UpdateRecord", "L", r, {"lst": ["L", "b"]}]]))
+      A(("upd L%d lst=None" % r, [["UpdateRecord", "L", r, {"lst": None}]]))
+      A(("upd L%d ref=1" % r, [["UpdateRecord", "L", r, {"ref": 1}]]))
+    for r in RL[-1:]:
+      A(("upd L%d key=a" % r, [["UpdateRecord", "L", r, {"key": "a"}]]))
+      A(("upd L%d s2=zz" % r, [["UpdateRecord", "L", r, {"s2": "zz"}]]))
+      A(("upd L%d lst=alt" % r, [["UpdateRecord", "L", r, {"lst": "txt"}]]))
+      A(("upd L%d manualSort first" % r, [["UpdateRecord", "L", r, {"manualSort": 0.5}]]))
+      A(("upd L%d key+s1" % r, [["UpdateRecord", "L", r, {"key": "a", "s1": 0}]]))
+    A(("add L", [["AddRecord", "L", None, {"key": "a", "lst": ["L", "a"], "ref": 2, "s1": 1, "s2": "x"}]]))
+    A(("add L empty", [["AddRecord", "L", None, {}]]))
+    if not self.reduced:
+      A(("add L at front", [["AddRecord", "L", None, {"key": "a", "s1": 2, "s2": "x", "manualSort": 0.25}]]))
+    for r in RL[:3]:
+      A(("rem L%d" % r, [["RemoveRecord", "L", r]]))
+    if len(RL) >= 2:
+      A(("bulkupd L keys swap", [["BulkUpdateRecord", "L", RL[:2], {"key": ["b", "a"], "s1": [1, 2]}]]))
+    for r in RQ[:1]:
+      A(("upd Q%d q=b" % r, [["UpdateRecord", "Q", r, {"q": "b"}]]))
+      A(("upd Q%d qi=1" % r, [["UpdateRecord", "Q", r, {"qi": 1}]]))
+      A(("upd Q%d q=None" % r, [["UpdateRecord", "Q", r, {"q": None}]]))
+    A(("add Q", [["AddRecord", "Q", None, {"q": "a", "qi": 1}]]))
+    return out
+
+
+# --------------------------------------------------------------------------------------------
 # World sets per property family
 # --------------------------------------------------------------------------------------------
 
+ALL = {'W_rec': WRec, 'W_schema': WSchema, 'W_sum': WSum, 'W_2way': W2Way, 'W_trig': WTrig,
+       'W_look': WLook}
+
+
+def make(names):
+  return [ALL[n]() for n in names]
+
+
 def history_worlds(tier):
   """Worlds for the document-wide differential oracles (C01, C02, C03, C07)."""
-  return [WRec(), WSchema()]
+  return make(['W_rec', 'W_schema', 'W_sum', 'W_2way', 'W_trig', 'W_look'])
 
 
 def formula_worlds(tier):
-  return [WRec(), WSchema()]
+  return make(['W_rec', 'W_schema', 'W_sum', 'W_2way', 'W_look'])
 
 
 def depths(tier):
+  """Depth per world for the document-wide oracles (all worlds in one run)."""
   if tier == 'quick':
-    return {'W_rec': 2, 'W_schema': 2}
-  return {'W_rec': 3, 'W_schema': 3}
+    return {'W_rec': 2, 'W_schema': 2, 'W_sum': 1, 'W_2way': 1, 'W_trig': 2, 'W_look': 1}
+  return {'W_rec': 3, 'W_schema': 2, 'W_sum': 2, 'W_2way': 2, 'W_trig': 3, 'W_look': 2}
+
+
+def depths_for(names, quick=2, thorough=3, overrides=None):
+  """Depth table for a property that owns a few worlds."""
+  out = {'quick': {n: quick for n in names}, 'thorough': {n: thorough for n in names}}
+  for tier, d in (overrides or {}).items():
+    out[tier].update(d)
+  return out
